@@ -63,11 +63,11 @@ def child(eng, sched, tag, expect_death):
     return rc, evs, out, ""
 
 
-def dump(eng, raftdir, tag):
+def dump(eng, raftdir, tag, offset=0):
     ctx = eng.ctx
     d = ctx.sub("c07-" + tag)
     outp = os.path.join(d, "dump.json")
-    env = {"VERIF_FSM_DUMPDIR": raftdir, "VERIF_FSM_OUT": outp, "TMPDIR": eng.scratch("c07tmp-" + tag)}
+    env = {"VERIF_FSM_DUMPDIR": raftdir, "VERIF_FSM_OUT": outp, "TMPDIR": eng.scratch("c07tmp-" + tag), "VERIF_FSM_OFFSET": offset}
     rc, out = ctx.run_bin([eng.binary, "-test.run", "^TestVerifFSMDumpLog$", "-test.count=1"], env=env, timeout=120, cwd=d)
     shutil.rmtree(eng.scratch("c07tmp-" + tag), ignore_errors=True)
     if rc != 0 or not os.path.exists(outp):
@@ -201,7 +201,7 @@ def run_panic_schedule(eng, sched, alog, tag, extra_entry=True, lie=()):
                     findings.append(("mod-unexpected-death", "child died, but not from the PANIC command: %s" % out[-300:]))
                     break
                 facts["crashes"] += 1
-                post = dump(eng, raftdir, "%s-%d-dump" % (tag, k))
+                post = dump(eng, raftdir, "%s-%d-dump" % (tag, k), offset=sched.get("offset", 0))
                 findings += check_marking(about[-1]["raw"], post, idx, cur_proto)
                 facts["crashes_" + ("proto" if cur_proto else "json")] = facts.get("crashes_" + ("proto" if cur_proto else "json"), 0) + 1
                 mod.append(idx)
@@ -234,6 +234,9 @@ def judge_panic(ctx, sched, alog, findings, all_events, abs_family=True, state_p
                 continue
             nsteps += 1
             b = j.check(ev)
+            for d in j.conv_drifts[:2]:
+                ctx.drift("%s [schedule %s]" % (d, sched["name"]))
+            j.conv_drifts = []
             if not state_predicates:
                 # a snapshot folded every entry in this behaviour: the bookkeeping after that is C02's
                 # subject; here only the message-of-death predicates are judged
@@ -364,7 +367,8 @@ def operator_schedule(name, proto, snapshot, migrate=False):
     if snapshot == "after":
         steps += [{"a": "SnapshotTake", "now": old}, {"a": "PersistOK"}, {"a": "Restart"}]
     steps += [{"a": "Apply", "i": 14}, {"a": "Restart"}]
-    return {"name": name, "proto": proto, "log": log, "steps": steps, "mod": [], "abs": False, "twice": True, "prestore": 0}
+    return {"name": name, "proto": proto, "log": log, "steps": steps, "mod": [], "abs": False, "twice": True, "prestore": 0,
+            "offset": F.PROD_OFFSET if (migrate or proto) else 0}
 
 
 def shape_of(b):
@@ -450,7 +454,8 @@ def _run(ctx):
             % (mnedges, len(mcrash), len(mcalm)))
     if len(mcalm) > (250 if quick else 20000):
         mcalm = rng.sample(mcalm, 250 if quick else 20000)
-    eng.replay_behaviours(mcalm, "PreludeReg", "migcalm", proto_of=lambda k: False, nproc=4 if quick else 6)
+    eng.replay_behaviours(mcalm, "PreludeReg", "migcalm", proto_of=lambda k: False, nproc=4 if quick else 6,
+                          offset_of=lambda k: F.PROD_OFFSET if k % 3 else 0)
 
     # 2b. behaviours with crashes: child processes; one per distinct shape first, then seeded sample
     byshape = {}
@@ -467,10 +472,12 @@ def _run(ctx):
     jobs = []
     for name, b in sorted(hand.items()):
         for proto in (True, False):
-            s, alog = F.concretize(b, F.PRELUDES["PreludeReg"], "hand-%s-%s" % (name, "pb" if proto else "json"), proto=proto, rng=rng)
+            s, alog = F.concretize(b, F.PRELUDES["PreludeReg"], "hand-%s-%s" % (name, "pb" if proto else "json"), proto=proto, rng=rng,
+                                   offset=F.PROD_OFFSET if len(jobs) % 2 == 0 else 0)
             jobs.append((s, alog, True, True))
     for k, b in enumerate(chosen):
-        s, alog = F.concretize(b, F.PRELUDES["PreludeReg"], "crash-%d" % k, proto=(k % 2 == 0), rng=rng)
+        s, alog = F.concretize(b, F.PRELUDES["PreludeReg"], "crash-%d" % k, proto=(k % 2 == 0), rng=rng,
+                               offset=F.PROD_OFFSET if (k // 2) % 2 == 0 else 0)
         jobs.append((s, alog, True, not folds_all(b)))
     for snap in ("none", "before", "after"):
         for proto in (True, False):
@@ -478,7 +485,7 @@ def _run(ctx):
     # the same with the encoding migration of the node: always a JSON node at first
     nmig0 = len(jobs)
     for name, b in sorted(handcrafted_migration().items()):
-        s, alog = F.concretize(b, F.PRELUDES["PreludeReg"], "mig-%s" % name, proto=False, rng=rng)
+        s, alog = F.concretize(b, F.PRELUDES["PreludeReg"], "mig-%s" % name, proto=False, rng=rng, offset=F.PROD_OFFSET)
         jobs.append((s, alog, True, True))
     mshape = {}
     for b in mcrash:
@@ -491,7 +498,8 @@ def _run(ctx):
         rest = [b for b in mcrash if b not in mchosen]
         mchosen += rng.sample(rest, min(len(rest), mbudget - len(mchosen)))
     for k, b in enumerate(mchosen):
-        s, alog = F.concretize(b, F.PRELUDES["PreludeReg"], "migcrash-%d" % k, proto=False, rng=rng)
+        s, alog = F.concretize(b, F.PRELUDES["PreludeReg"], "migcrash-%d" % k, proto=False, rng=rng,
+                               offset=F.PROD_OFFSET if k % 3 else 0)
         jobs.append((s, alog, True, not folds_all(b)))
     for snap in ("none", "before", "after"):
         jobs.append((operator_schedule("oper-mig-%s" % snap, False, snap, migrate=True), [], False, True))
